@@ -560,7 +560,7 @@ theorem close_prims (sem : Prop) (ok : Bytes → Nat → Prop) (st : St) (sid : 
           h1.tail (.rootClosed _)
         split
         · exact h2
-        · exact (h2.trans (reportPass_prims sem ok _)).tail (.purge _ _)
+        · exact (h2.trans (reportPass_prims sem ok _)).tail (Prim.purge _ _)
 
 /-- the operations that update a metric through its handle -/
 def IsUpd : Op → Prop
